@@ -85,6 +85,25 @@ CLAIMED = {
             "trusted: pyvc, z3, cvc5",
             "contract-based deductive verification: VCs generated from the AST of the real functions and their SQL text, "
             "discharged by z3 / cvc5"),
+    "C20": ("exploration",
+            "Bounded stand-in, labelled bounded and not counted as proved, for the real FIXTester with tests/FIX44.xml: "
+            "every order state the helper can produce x ExecType / OrdStatus pairs x quantity / price / ClOrdID argument "
+            "variants - what the helper's assertions let through validates against the dictionary, keeps the quantity "
+            "relations, uses a fresh ExecID and one OrderID per order and is processed by the order object without any "
+            "exception; cancel rejects and the session-message factories validate; all clean session scripts up to a "
+            "length bound give the same frames, states and counters against the simulated acceptor and against "
+            "AsyncFIXDummyServer fed through its own reader task. Deductive core, proved for every order state "
+            "satisfying the invariant of C17, every ExecType / OrdStatus and all real-valued arguments in five argument "
+            "shapes: fix_exec_report_msg yields CumQty + LeavesQty <= OrderQty, LeavesQty 0 for finished statuses, "
+            "ExecID = counter + 1, the order's (or the remembered) OrderID, and process_execution_report accepts it. One "
+            "genuine defect repaired (fix: d58658c two reports in a row carried different OrderIDs).",
+            "DESIGN.md 4/C20 and 9",
+            "level exploration: dictionary validity and fidelity need the XML dictionary and two whole-session runs - "
+            "outside per-function contracts; bounds: 25 sampled pairs (thorough all 255) x 11 states x 15 variants, "
+            "scripts of up to 2 (4) actions out of 5; masked in the frame comparison: SendingTime, lengths, CheckSum, "
+            "clock-valued TestReqID; deductive core under the assumptions of C17 (reals, A-REPR)",
+            "bounded exploration of the real helper as stand-in; contract-based deductive verification of "
+            "fix_exec_report_msg (z3)"),
     "C15": ("exploration",
             "Bounded stand-in, labelled bounded and not counted as proved, for dictionary parsing and the structural checks "
             "of the real FIXSchema.validate / SchemaGroup.validate_group: every message type of tests/FIX44.xml (93) and "
